@@ -14,7 +14,10 @@
 
 enum Ctr { C_EVAL = 0, C_INPUTS, C_NONTRIV, C_SKIPPED };
 
-typedef double W;
+#ifndef VH_WTYPE
+#define VH_WTYPE double
+#endif
+typedef VH_WTYPE W;     // -DVH_WTYPE="unsigned long": the same harness over an unsigned integral weight type
 typedef vb::Built<W> B;
 typedef B::Graph Graph;
 typedef B::Edge Edge;
